@@ -205,7 +205,7 @@ int main() {
                 stuck.append((i, t))
         convbits.append(", ".join(bits))
     configs = [("g++", "c++14"), ("clang++-14", ["c++14", "c++17", "c++20"][seed % 3])]
-    nchunks = 16
+    nchunks = max(16, -(-len(cases) // 10))      # bounded translation units: ~10 cases per TU in every tier
     results = {}
     stats = {"constants_library": len(libc), "cases": len(cases), "composition_probes": stats_compose, "configs": [], "available_cells": 0, "unavailable_cells": 0, "neg_probes": 0,
              "float_cells_checked": 0}
